@@ -114,6 +114,19 @@ pub fn structured() -> Vec<(String, Deviation)> {
                 v.push((format!("connect response result {} BER width {}", result, wide), Deviation { msg: "connect_response".into(), kind: DevKind::Replace(cr(result, &full, wide, 31219)) }));
             }
         }
+        // domain parameters and calledConnectId: every parameter at small, boundary and huge values (the rest of the
+        // conversation stays honest, so whatever the client stores is used by its later writes)
+        for val in [0u64, 1, 2, 3, 4, 7, 8, 9, 15, 16, 127, 128, 255, 256, 0x7FFF, 0x8000, 0xFFFF, 0x1_0000, 0x7FFF_FFFF, 0x8000_0000, 0xFFFF_FFFF, 0x1_0000_0000, u64::MAX >> 1] {
+            for idx in 0..9usize {
+                let mut p = mcs::DEFAULT_RESPONSE_PARAMS;
+                let mut id = 0u64;
+                if idx < 8 { p[idx] = val } else { id = val }
+                let frame = vref::framing::tpkt(&vref::framing::x224_dt(&mcs::connect_response(0, id, &p, &gcc::conference_create_response(&full, 31219, 1), 0)));
+                v.push((format!("connect response domain parameter {} = {:#x}", if idx < 8 { idx.to_string() } else { "calledConnectId".into() }, val), Deviation { msg: "connect_response".into(), kind: DevKind::Replace(frame) }));
+            }
+            let frame = vref::framing::tpkt(&vref::framing::x224_dt(&mcs::connect_response(0, val, &[val; 8], &gcc::conference_create_response(&full, 31219, 1), 0)));
+            v.push((format!("connect response all domain parameters = {:#x}", val), Deviation { msg: "connect_response".into(), kind: DevKind::Replace(frame) }));
+        }
         let raw_block = |ty: u16, body: &[u8]| {
             let mut w = W::new();
             w.u16le(ty).u16le((body.len() + 4) as u16).bytes(body);
@@ -150,6 +163,17 @@ pub fn structured() -> Vec<(String, Deviation)> {
             variants.push((format!("SC_SECURITY body of {} bytes", blen), [core(0x00080004, Some(1), Some(1)), raw_block(0x0C02, &vec![0u8; blen]), net(vec![])].concat()));
         }
         variants.push(("no block at all".into(), vec![]));
+        // BER lengths close to 2^64 / 2^63 / 2^32 at the top of the connect response and inside it
+        for raw in [
+            vec![0x7f, 0x66, 0x88, 0xff, 0xff, 0xff, 0xff, 0xff, 0xff, 0xff, 0xff],
+            vec![0x7f, 0x66, 0x88, 0xff, 0xff, 0xff, 0xff, 0xff, 0xff, 0xff, 0xf0, 0x0a, 0x01, 0x00],
+            vec![0x7f, 0x66, 0x0c, 0x0a, 0x88, 0xff, 0xff, 0xff, 0xff, 0xff, 0xff, 0xff, 0xff, 0x00],
+            vec![0x7f, 0x66, 0x88, 0x80, 0, 0, 0, 0, 0, 0, 0, 0x0a],
+            vec![0x7f, 0x66, 0x84, 0xff, 0xff, 0xff, 0xff, 0x0a, 0x01, 0x00],
+            vec![0x7f, 0x66, 0x80, 0x0a, 0x01, 0x00, 0x00, 0x00],
+        ] {
+            v.push((format!("connect response bytes {}", vref::bytes::hex(&raw)), Deviation { msg: "connect_response".into(), kind: DevKind::Replace(vref::framing::tpkt(&vref::framing::x224_dt(&raw))) }));
+        }
         variants.push(("SC_CORE only".into(), core(0x00080004, Some(1), Some(1))));
         variants.push(("SC_NET only".into(), net(vec![])));
         variants.push(("SC_SECURITY only".into(), sec.clone()));
